@@ -2,7 +2,7 @@
 from core import Case, enc_b, enc_s
 from props.cardutil import digits, rb
 
-OBLIGATIONS = []
+OBLIGATIONS = ["Psec.Props.C05.iso0_eq_spec", "Psec.Props.C05.iso2_eq_spec", "Psec.Props.C05.iso3_layout", "Psec.Props.C05.iso4_pin_field_layout", "Psec.Props.C05.iso4_pan_field_eq_spec", "Psec.Props.C05.iso4_encipher_eq", "Psec.Props.C05.panBlock_eq_spec", "Psec.Props.C05.choices_alphabet"]
 TRUSTED_BASE = ["Lean 4.33 kernel", "Spec/ISO9564.lean is my reading of the ISO 9564-1 field tables", "correspondence harness and compiled driver"]
 RULE = ("all PIN lengths 4..12 x PAN lengths 13..24 / 1..19 x digit patterns (random, all 0, all 9, 0-leading) x AES key sizes; every output nibble compared with "
         "the from-the-standard construction executed by the Lean driver; distinct = distinct driver lines")
